@@ -445,7 +445,7 @@ DOC_DEFAULTS = {
     "KernelPCovR": dict(mixing=0.5, n_components=None, svd_solver="auto", regressor=None, kernel="linear", gamma=None, degree=3, coef0=1, kernel_params=None,
                         center=False, fit_inverse_transform=False, tol=1e-12, n_jobs=None, iterated_power="auto", random_state=None),
     "OrthogonalRegression": dict(use_orthogonal_projector=True, linear_estimator=None),
-    "Ridge2FoldCV": dict(alpha_type="absolute", regularization_method="tikhonov", cv=None, scoring=None, random_state=None, shuffle=True, n_jobs=None),
+    "Ridge2FoldCV": dict(alphas=(0.1, 1.0, 10.0), alpha_type="absolute", regularization_method="tikhonov", cv=None, scoring=None, random_state=None, shuffle=True, n_jobs=None),
     "StandardFlexibleScaler": dict(with_mean=True, with_std=True, column_wise=False, rtol=0, atol=1e-12),
     "KernelNormalizer": dict(with_center=True, with_trace=True),
     "SparseKernelCenterer": dict(with_center=True, with_trace=True, rcond=1e-12),
@@ -489,3 +489,63 @@ def apalache_inductive(module, timeout=1500):
             res.append("%s/length %d: not run (%s)" % (init, length, type(e).__name__))
     shutil.rmtree(out, ignore_errors=True)
     return res
+
+# ---------------------------------------------------------------------------------------
+# watchdog for calls into the implementation: a change that makes a loop run forever must end in a verdict, not in a
+# check that hangs.  `timed(iterable, seconds)` arms an alarm before every item of a generator loop (worker processes,
+# main thread); the TimeoutError surfaces inside the implementation call and is recorded like any other exception
+# raised on a valid input.
+class CallTimeout(Exception):
+    pass
+
+
+_TIMEOUTS_SEEN = [0]
+
+
+def _on_alarm(signum, frame):
+    import signal
+    _TIMEOUTS_SEEN[0] += 1
+    signal.alarm(5)          # further calls within the same item get a short limit of their own
+    raise CallTimeout("call into the implementation did not return within the watchdog limit")
+
+
+def timed(iterable, seconds=None):
+    import signal
+    seconds = seconds or int(os.environ.get("VERIF_CALL_TIMEOUT", "180"))
+    try:
+        signal.signal(signal.SIGALRM, _on_alarm)
+        armed = True
+    except ValueError:          # not in the main thread: no watchdog
+        armed = False
+    try:
+        for item in iterable:
+            if _TIMEOUTS_SEEN[0] >= 3:
+                break             # this worker has seen enough calls that do not return: the cases recorded so far decide
+            if armed:
+                # once a call has timed out in this worker the remaining items get a short limit: the check must still end
+                signal.alarm(seconds if _TIMEOUTS_SEEN[0] == 0 else max(5, seconds // 12))
+            yield item
+    finally:
+        if armed:
+            signal.alarm(0)
+
+def arm(seconds=None):
+    """Watchdog for one iteration of a hand-written generator loop (see `timed`); returns False when the worker should stop."""
+    import signal
+    if _TIMEOUTS_SEEN[0] >= 3:
+        return False
+    seconds = seconds or int(os.environ.get("VERIF_CALL_TIMEOUT", "180"))
+    try:
+        signal.signal(signal.SIGALRM, _on_alarm)
+        signal.alarm(seconds if _TIMEOUTS_SEEN[0] == 0 else max(5, seconds // 12))
+    except ValueError:
+        pass
+    return True
+
+
+def disarm():
+    import signal
+    try:
+        signal.alarm(0)
+    except ValueError:
+        pass
